@@ -32,7 +32,11 @@ func init() {
 }
 
 // reweightedTable builds a deep copy of table id whose weights come from a constructed coding sequence.
-func reweightedTable(id int, r *rand.Rand, zeroSome bool) (codon.Table, plainTable) {
+func reweightedTable(id int, r *rand.Rand, zeroSome bool, thresholdAll ...bool) (codon.Table, plainTable) {
+	return reweightedTableT(id, r, zeroSome, len(thresholdAll) > 0 && thresholdAll[0])
+}
+
+func reweightedTableT(id int, r *rand.Rand, zeroSome, thresholdAll bool) (codon.Table, plainTable) {
 	t := deepTable(id)
 	base := snapshot(t)
 	weights := map[string]int{}
@@ -43,16 +47,21 @@ func reweightedTable(id int, r *rand.Rand, zeroSome bool) (codon.Table, plainTab
 		}
 		sort.Strings(cs)
 		mode := r.Intn(6)
+		if thresholdAll && len(cs) >= 2 {
+			mode = 1
+		}
 		switch {
 		case mode == 0 && zeroSome: // whole amino acid unusable
 			for _, c := range cs {
 				weights[c] = 0
 			}
 		case mode == 1 && len(cs) >= 2: // one codon at exactly 10%, another just above
-			// total 100: first codon 10 (exactly 10% -> not eligible), second 11, rest shares the remainder
-			weights[cs[0]] = 10
-			weights[cs[1]] = 11
-			rest := 79
+			// total T = 100, 200 or 1000: first codon T/10 (exactly 10% -> not eligible), second one unit more
+			// (11%, 10.5% or 10.1% -> eligible), the rest shares the remainder
+			T := []int{100, 200, 1000}[r.Intn(3)]
+			weights[cs[0]] = T / 10
+			weights[cs[1]] = T/10 + 1
+			rest := T - 2*(T/10) - 1
 			for i := 2; i < len(cs); i++ {
 				if i == len(cs)-1 {
 					weights[cs[i]] = rest
@@ -63,7 +72,7 @@ func reweightedTable(id int, r *rand.Rand, zeroSome bool) (codon.Table, plainTab
 				}
 			}
 			if len(cs) == 2 {
-				weights[cs[1]] = 90
+				weights[cs[1]] = T - T/10
 			}
 		case mode == 2: // some zero
 			for _, c := range cs {
@@ -362,7 +371,8 @@ func runC07(w *mon.W) {
 	for t := 0; t < nTab; t++ {
 		tid := tableIDs[(t*7)%len(tableIDs)]
 		tr := w.Rand(fmt.Sprintf("proptbl-%d", t))
-		tbl, snap := reweightedTable(tid, tr, false)
+		// every second table puts one codon of every amino acid at exactly 10% and another just above (10.1..11%)
+		tbl, snap := reweightedTable(tid, tr, false, t%2 == 1)
 		for _, l := range snap.letters() {
 			id := fmt.Sprintf("prop-t%d-%s", tid, l)
 			idx++
